@@ -82,6 +82,23 @@ def check(ctx):
     ret = na.call_sites(r"Option::and_then$")
     ok = len(ret) == 1 and render(na.site_expr(ret[0])).startswith("std::option::Option::and_then(event, closure:")
     ctx.ob("notify_any", "result = event.and_then(non-empty pending)", ok, ret[0].loc() if ret else "", "return value built from the remaining event")
+    # the event is consumed only by a successful delivery: every return not preceded by notify_handler == Ok goes
+    # through the final `event.and_then(..)` (so a closing / not-ready connection never swallows the event)
+    ok_edges = set()
+    for s in nh:
+        ok_edges |= lib.switch_edges_on_site(na, s, {"Ok"})
+    r = na.reachable([0], blocked_nodes=lib.bbs(ret), blocked_edges=ok_edges)
+    early = sorted(set(na.return_blocks()) & r)
+    ctx.ob("notify_any", "event only consumed by delivery (no early return)", not early and bool(ret), "%s:%d" % (na.file, na.line),
+           "returns reachable without a successful delivery and without the final and_then: %s" % early)
+    # all captured connections are tried: the loop is left only on iterator exhaustion or successful delivery
+    it_next = na.call_sites(r"smallvec::IntoIter as std::iter::Iterator>::next$")
+    ctx.floor("notify_any", "ids iterator next()", it_next, 1)
+    if it_next and ret:
+        none_e = lib.switch_edges_on_site(na, it_next[0], {"None"})
+        r2 = na.reachable([0], blocked_edges=ok_edges | none_e)
+        ctx.ob("notify_any", "loop left only when ids are exhausted or the event was delivered", ret[0].bb not in r2, ret[0].loc(),
+               "final result reachable only via ids.next()==None or notify_handler==Ok")
     cl = ctx.body(SW, r"^libp2p_swarm::notify_any::\{closure#0\}$")
     res = [mir.Site(cl, x[1], x[2]) for x in cl.defs[0]]
     lib.check_cells(ctx, "notify_any", "retry only with candidates", cl, res,
